@@ -408,6 +408,16 @@ def run(ctx):
             ctx.fail(sig, what, {"pooled_group": g, "pooled": pl[g], "configs": cfgs,
                                  "estimates": [[s_ and s_["p"] for s_ in r.get("cols", [])] for r in results],
                                  "sigmas": [[s_ and s_["sigma"] for s_ in r.get("cols", [])] for r in results]})
+    # level is "other", so the framework does not copy the proof bookkeeping: do it here
+    ctx.extra.update({
+        "obligations": int(ctx.proof.get("obligations", 0)), "discharged": int(ctx.proof.get("discharged", 0)),
+        "checker_cmd": "cd lean && lake build Infretis.Props.C01 drv_c01 && lake env lean .lake/audit_C01.lean  (#print axioms)",
+        "theorems": ctx.proof.get("theorems", []), "proof_problems": ctx.proof.get("problems", []),
+        "trusted_base": ["Lean 4.33.0 kernel; axioms ⊆ {propext, Classical.choice, Quot.sound} (audited each run)",
+                         "Mathlib modules imported one at a time in Lemmas/Props",
+                         "hand-written Lean estimator — tied to its Python twin exactly on every run's data",
+                         "Python harness: lattice plug-in, synchronous runner, statistics"],
+    })
     ctx.explanation = (
         "level=other: a statistical acceptance test cannot be a theorem. Proved in Lean (audited): the exact reference "
         "values (k+1)/(k+2) as the unique solution of the walk's boundary-value recurrence for every k; the estimator's "
